@@ -6,6 +6,8 @@ use super::Registers;
 
 /// Layer variables on top of the existing runtime
 pub struct StackFrame<P, O> {
+    #[cfg(liquid_verif)]
+    vid: u64,
     parent: P,
     name: Option<crate::model::KString>,
     data: O,
@@ -14,7 +16,15 @@ pub struct StackFrame<P, O> {
 impl<P: super::Runtime, O: ObjectView> StackFrame<P, O> {
     /// Layer variables on top of the existing runtime
     pub fn new(parent: P, data: O) -> Self {
+        #[cfg(liquid_verif)]
+        let vid = {
+            let vid = super::verif_trace::next_id();
+            super::verif_trace::emit_new("plain", vid, parent.verif_id());
+            vid
+        };
         Self {
+            #[cfg(liquid_verif)]
+            vid,
             parent,
             name: None,
             data,
@@ -29,6 +39,11 @@ impl<P: super::Runtime, O: ObjectView> StackFrame<P, O> {
 }
 
 impl<P: super::Runtime, O: ObjectView> super::Runtime for StackFrame<P, O> {
+    #[cfg(liquid_verif)]
+    fn verif_id(&self) -> u64 {
+        self.vid
+    }
+
     fn partials(&self) -> &dyn super::PartialStore {
         self.parent.partials()
     }
@@ -50,6 +65,13 @@ impl<P: super::Runtime, O: ObjectView> super::Runtime for StackFrame<P, O> {
         let key = path.first()?;
         let key = key.to_kstr();
         let data = &self.data;
+        #[cfg(liquid_verif)]
+        super::verif_trace::emit(
+            "Ask",
+            self.vid,
+            &[("key", key.as_str())],
+            &[("has", data.contains_key(key.as_str()))],
+        );
         if data.contains_key(key.as_str()) {
             crate::model::try_find(data.as_value(), path)
         } else {
@@ -63,6 +85,13 @@ impl<P: super::Runtime, O: ObjectView> super::Runtime for StackFrame<P, O> {
         })?;
         let key = key.to_kstr();
         let data = &self.data;
+        #[cfg(liquid_verif)]
+        super::verif_trace::emit(
+            "Ask",
+            self.vid,
+            &[("key", key.as_str())],
+            &[("has", data.contains_key(key.as_str()))],
+        );
         if data.contains_key(key.as_str()) {
             crate::model::find(data.as_value(), path).map(|v| v.into_owned().into())
         } else {
@@ -75,14 +104,20 @@ impl<P: super::Runtime, O: ObjectView> super::Runtime for StackFrame<P, O> {
         name: crate::model::KString,
         val: crate::model::Value,
     ) -> Option<crate::model::Value> {
+        #[cfg(liquid_verif)]
+        super::verif_trace::emit("SetGlobal", self.vid, &[("key", name.as_str())], &[("stored", false)]);
         self.parent.set_global(name, val)
     }
 
     fn set_index(&self, name: crate::model::KString, val: Value) -> Option<Value> {
+        #[cfg(liquid_verif)]
+        super::verif_trace::emit("SetIndex", self.vid, &[("key", name.as_str())], &[("stored", false)]);
         self.parent.set_index(name, val)
     }
 
     fn get_index<'a>(&'a self, name: &str) -> Option<ValueCow<'a>> {
+        #[cfg(liquid_verif)]
+        super::verif_trace::emit("GetIndex", self.vid, &[("key", name)], &[("answered", false)]);
         self.parent.get_index(name)
     }
 
@@ -93,6 +128,8 @@ impl<P: super::Runtime, O: ObjectView> super::Runtime for StackFrame<P, O> {
 
 /// A stack frame that only provides a sandboxed set of globals
 pub struct GlobalFrame<P> {
+    #[cfg(liquid_verif)]
+    vid: u64,
     parent: P,
     data: std::cell::RefCell<Object>,
 }
@@ -100,7 +137,15 @@ pub struct GlobalFrame<P> {
 impl<P: super::Runtime> GlobalFrame<P> {
     /// Override globals for `parent`
     pub fn new(parent: P) -> Self {
+        #[cfg(liquid_verif)]
+        let vid = {
+            let vid = super::verif_trace::next_id();
+            super::verif_trace::emit_new("global", vid, parent.verif_id());
+            vid
+        };
         Self {
+            #[cfg(liquid_verif)]
+            vid,
             parent,
             data: Default::default(),
         }
@@ -108,6 +153,11 @@ impl<P: super::Runtime> GlobalFrame<P> {
 }
 
 impl<P: super::Runtime> super::Runtime for GlobalFrame<P> {
+    #[cfg(liquid_verif)]
+    fn verif_id(&self) -> u64 {
+        self.vid
+    }
+
     fn partials(&self) -> &dyn super::PartialStore {
         self.parent.partials()
     }
@@ -126,6 +176,13 @@ impl<P: super::Runtime> super::Runtime for GlobalFrame<P> {
         let key = path.first()?;
         let key = key.to_kstr();
         let data = self.data.borrow();
+        #[cfg(liquid_verif)]
+        super::verif_trace::emit(
+            "Ask",
+            self.vid,
+            &[("key", key.as_str())],
+            &[("has", data.contains_key(key.as_str()))],
+        );
         if data.contains_key(key.as_str()) {
             crate::model::try_find(data.as_value(), path).map(|v| v.into_owned().into())
         } else {
@@ -139,6 +196,13 @@ impl<P: super::Runtime> super::Runtime for GlobalFrame<P> {
         })?;
         let key = key.to_kstr();
         let data = self.data.borrow();
+        #[cfg(liquid_verif)]
+        super::verif_trace::emit(
+            "Ask",
+            self.vid,
+            &[("key", key.as_str())],
+            &[("has", data.contains_key(key.as_str()))],
+        );
         if data.contains_key(key.as_str()) {
             crate::model::find(data.as_value(), path).map(|v| v.into_owned().into())
         } else {
@@ -151,15 +215,21 @@ impl<P: super::Runtime> super::Runtime for GlobalFrame<P> {
         name: crate::model::KString,
         val: crate::model::Value,
     ) -> Option<crate::model::Value> {
+        #[cfg(liquid_verif)]
+        super::verif_trace::emit("SetGlobal", self.vid, &[("key", name.as_str())], &[("stored", true)]);
         let mut data = self.data.borrow_mut();
         data.insert(name, val)
     }
 
     fn set_index(&self, name: crate::model::KString, val: Value) -> Option<Value> {
+        #[cfg(liquid_verif)]
+        super::verif_trace::emit("SetIndex", self.vid, &[("key", name.as_str())], &[("stored", false)]);
         self.parent.set_index(name, val)
     }
 
     fn get_index<'a>(&'a self, name: &str) -> Option<ValueCow<'a>> {
+        #[cfg(liquid_verif)]
+        super::verif_trace::emit("GetIndex", self.vid, &[("key", name)], &[("answered", false)]);
         self.parent.get_index(name)
     }
 
@@ -169,13 +239,23 @@ impl<P: super::Runtime> super::Runtime for GlobalFrame<P> {
 }
 
 pub(crate) struct IndexFrame<P> {
+    #[cfg(liquid_verif)]
+    vid: u64,
     parent: P,
     data: std::cell::RefCell<Object>,
 }
 
 impl<P: super::Runtime> IndexFrame<P> {
     pub fn new(parent: P) -> Self {
+        #[cfg(liquid_verif)]
+        let vid = {
+            let vid = super::verif_trace::next_id();
+            super::verif_trace::emit_new("index", vid, parent.verif_id());
+            vid
+        };
         Self {
+            #[cfg(liquid_verif)]
+            vid,
             parent,
             data: Default::default(),
         }
@@ -183,6 +263,11 @@ impl<P: super::Runtime> IndexFrame<P> {
 }
 
 impl<P: super::Runtime> super::Runtime for IndexFrame<P> {
+    #[cfg(liquid_verif)]
+    fn verif_id(&self) -> u64 {
+        self.vid
+    }
+
     fn partials(&self) -> &dyn super::PartialStore {
         self.parent.partials()
     }
@@ -201,6 +286,13 @@ impl<P: super::Runtime> super::Runtime for IndexFrame<P> {
         let key = path.first()?;
         let key = key.to_kstr();
         let data = self.data.borrow();
+        #[cfg(liquid_verif)]
+        super::verif_trace::emit(
+            "Ask",
+            self.vid,
+            &[("key", key.as_str())],
+            &[("has", data.contains_key(key.as_str()))],
+        );
         if data.contains_key(key.as_str()) {
             crate::model::try_find(data.as_value(), path).map(|v| v.into_owned().into())
         } else {
@@ -214,6 +306,13 @@ impl<P: super::Runtime> super::Runtime for IndexFrame<P> {
         })?;
         let key = key.to_kstr();
         let data = self.data.borrow();
+        #[cfg(liquid_verif)]
+        super::verif_trace::emit(
+            "Ask",
+            self.vid,
+            &[("key", key.as_str())],
+            &[("has", data.contains_key(key.as_str()))],
+        );
         if data.contains_key(key.as_str()) {
             crate::model::find(data.as_value(), path).map(|v| v.into_owned().into())
         } else {
@@ -226,15 +325,26 @@ impl<P: super::Runtime> super::Runtime for IndexFrame<P> {
         name: crate::model::KString,
         val: crate::model::Value,
     ) -> Option<crate::model::Value> {
+        #[cfg(liquid_verif)]
+        super::verif_trace::emit("SetGlobal", self.vid, &[("key", name.as_str())], &[("stored", false)]);
         self.parent.set_global(name, val)
     }
 
     fn set_index(&self, name: crate::model::KString, val: Value) -> Option<Value> {
+        #[cfg(liquid_verif)]
+        super::verif_trace::emit("SetIndex", self.vid, &[("key", name.as_str())], &[("stored", true)]);
         let mut data = self.data.borrow_mut();
         data.insert(name, val)
     }
 
     fn get_index<'a>(&'a self, name: &str) -> Option<ValueCow<'a>> {
+        #[cfg(liquid_verif)]
+        super::verif_trace::emit(
+            "GetIndex",
+            self.vid,
+            &[("key", name)],
+            &[("answered", true), ("has", self.data.borrow().contains_key(name))],
+        );
         self.data.borrow().get(name).map(|v| v.to_value().into())
     }
 
@@ -246,6 +356,8 @@ impl<P: super::Runtime> super::Runtime for IndexFrame<P> {
 /// A [`StackFrame`] where variables are not recursively searched for,
 /// However, you can still access the parent's partials.
 pub struct SandboxedStackFrame<P, O> {
+    #[cfg(liquid_verif)]
+    vid: u64,
     parent: P,
     name: Option<crate::model::KString>,
     data: O,
@@ -255,7 +367,15 @@ pub struct SandboxedStackFrame<P, O> {
 impl<P: super::Runtime, O: ObjectView> SandboxedStackFrame<P, O> {
     /// Create a new [`SandboxedStackFrame`] from a parent and some data
     pub fn new(parent: P, data: O) -> Self {
+        #[cfg(liquid_verif)]
+        let vid = {
+            let vid = super::verif_trace::next_id();
+            super::verif_trace::emit_new("sandbox", vid, parent.verif_id());
+            vid
+        };
         Self {
+            #[cfg(liquid_verif)]
+            vid,
             parent,
             name: None,
             data,
@@ -271,6 +391,11 @@ impl<P: super::Runtime, O: ObjectView> SandboxedStackFrame<P, O> {
 }
 
 impl<P: super::Runtime, O: ObjectView> super::Runtime for SandboxedStackFrame<P, O> {
+    #[cfg(liquid_verif)]
+    fn verif_id(&self) -> u64 {
+        self.vid
+    }
+
     fn partials(&self) -> &dyn super::PartialStore {
         self.parent.partials()
     }
@@ -292,6 +417,13 @@ impl<P: super::Runtime, O: ObjectView> super::Runtime for SandboxedStackFrame<P,
         let key = path.first()?;
         let key = key.to_kstr();
         let data = &self.data;
+        #[cfg(liquid_verif)]
+        super::verif_trace::emit(
+            "Ask",
+            self.vid,
+            &[("key", key.as_str())],
+            &[("has", data.get(key.as_str()).is_some())],
+        );
         data.get(key.as_str())
             .and_then(|_| crate::model::try_find(data.as_value(), path))
     }
@@ -302,6 +434,13 @@ impl<P: super::Runtime, O: ObjectView> super::Runtime for SandboxedStackFrame<P,
         })?;
         let key = key.to_kstr();
         let data = &self.data;
+        #[cfg(liquid_verif)]
+        super::verif_trace::emit(
+            "Ask",
+            self.vid,
+            &[("key", key.as_str())],
+            &[("has", data.get(key.as_str()).is_some())],
+        );
         data.get(key.as_str())
             .and_then(|_| crate::model::try_find(data.as_value(), path))
             .map(|v| v.into_owned().into())
@@ -313,14 +452,20 @@ impl<P: super::Runtime, O: ObjectView> super::Runtime for SandboxedStackFrame<P,
         name: crate::model::KString,
         val: crate::model::Value,
     ) -> Option<crate::model::Value> {
+        #[cfg(liquid_verif)]
+        super::verif_trace::emit("SetGlobal", self.vid, &[("key", name.as_str())], &[("stored", false)]);
         self.parent.set_global(name, val)
     }
 
     fn set_index(&self, name: crate::model::KString, val: Value) -> Option<Value> {
+        #[cfg(liquid_verif)]
+        super::verif_trace::emit("SetIndex", self.vid, &[("key", name.as_str())], &[("stored", false)]);
         self.parent.set_index(name, val)
     }
 
     fn get_index<'a>(&'a self, name: &str) -> Option<ValueCow<'a>> {
+        #[cfg(liquid_verif)]
+        super::verif_trace::emit("GetIndex", self.vid, &[("key", name)], &[("answered", false)]);
         self.parent.get_index(name)
     }
 
